@@ -380,6 +380,16 @@ class Aggregate:
             self.samples.append(res["sample"])
 
 
+def _repo_state(repo):
+    import subprocess
+    try:
+        head = subprocess.run(["git", "-C", repo, "rev-parse", "--short", "HEAD"], capture_output=True, text=True, timeout=20).stdout.strip()
+        dirty = subprocess.run(["git", "-C", repo, "status", "--porcelain", "--untracked-files=no"], capture_output=True, text=True, timeout=20).stdout.strip()
+        return {"path": repo, "head": head, "working_tree_modified": bool(dirty)}
+    except Exception as e:
+        return {"path": repo, "error": repr(e)}
+
+
 def write_evidence(prop, tier, seed, agg, wall, extra_cov=None, violations=0):
     cov = {
         "evaluations": agg.runs,
@@ -409,8 +419,14 @@ def write_evidence(prop, tier, seed, agg, wall, extra_cov=None, violations=0):
         "wall_s": round(wall, 2),
         "violations": violations,
     }
-    os.makedirs(os.path.join(VERIF, "evidence"), exist_ok=True)
-    p = os.path.join(VERIF, "evidence", prop.id + ".json")
+    repo = os.environ.get("VERIF_REPO") or "/repo"
+    cov["repo_checked"] = _repo_state(repo)
+    edir = os.path.join(VERIF, "evidence")
+    if os.path.realpath(repo) != "/repo":
+        # a run against a scratch copy (seeded change) never overwrites the evidence of the real tree
+        edir = os.path.join(scratch_root(), "evidence-other-tree")
+    os.makedirs(edir, exist_ok=True)
+    p = os.path.join(edir, prop.id + ".json")
     tmp = p + ".tmp"
     with open(tmp, "w") as f:
         json.dump(ev, f, indent=1, default=repr)
